@@ -190,6 +190,20 @@ def run(ctx, rep):
         # hashed reader derives from (a clone of) the closure's item parameter; the tuple returned carries the same item
         ret = flow.backward_slice(c, [0])
         okd = 2 in sl["args"] and 2 in ret["args"] and bb in ret["call_sites"] and any(x.endswith("Clone>::clone") or x.endswith("BytesList::reader") for x in sl["calls"])
+        # component-precise: the reader hashed is built from the FILE component of the item (a BytesList), nothing else
+
+        def arg_components(e, acc):
+            if isinstance(e, (tuple, list)):
+                if len(e) >= 3 and e[0] == "path" and e[1] == ("arg", 2):
+                    acc.add(e[2][0] if e[2] else "*")
+                for y in e:
+                    arg_components(y, acc)
+            return acc
+        comps = arg_components(flow.expr_of(c, t["args"][0]), set())
+        tys = c.locals[2] if len(c.locals) > 2 else ""
+        m = re.match(r"^\((.*)\)$", tys)
+        first_is_file = bool(m) and m.group(1).split(",")[0].strip().endswith("BytesList")
+        okd = okd and comps == {"0"} and first_is_file
     rep.check("C08.d", "id-is-hash-of-file", okd, where=AN.loc(), what="the pack id is hash_reader over (a clone of) the very BytesList that is passed on to be written")
     PR = prog.find1(r"^rustic_core::blob::packer::FileWriterHandle::<BE>::process$")
     wb = [(bb, t) for bb, t in PR.calls() if "callee" in t and is_method_of(t, RE_WRITE_BYTES)]
